@@ -103,25 +103,27 @@ theorem C26_step_refines {p : RrlParams} (hv : p.Valid) (key : Key) (cat : Categ
     responses with the same network, category and, for NOERROR, name). -/
 theorem C26_history {rs : RandomState} {p : RrlParams} {v4len v6len : Nat} (hv : p.Valid)
     (hm : MasksOf p v4len v6len) (T₀ : Nat) (reqs : List Req)
-    (hwf : AllWF reqs) (hmono : Mono T₀ reqs) (hsrc : SourcesCanonical reqs)
+    (hmono : Mono T₀ reqs) (hsrc : SourcesCanonical reqs)
     (hnc : NoBucketCollision rs p reqs) (hni : NoInitialKey rs p reqs) (hinj : HashInjectiveOn rs reqs) :
     runAll rs (Rrl.new p T₀) reqs =
       .ok (expectedFrom (specDecision (cfgOf p v4len v6len)) p [] reqs) :=
-  runAll_spec hv hm T₀ reqs hwf hmono hsrc hnc hni hinj
+  runAll_spec hv hm T₀ reqs hmono hsrc hnc hni hinj
 
 /-- The same without `HashInjectiveOn` and without any assumption on the sources: each *key*
     (what the table actually stores) sees its own eager bucket. -/
 theorem C26_history_per_key {rs : RandomState} {p : RrlParams} (hv : p.Valid) (T₀ : Nat) (reqs : List Req)
-    (hwf : AllWF reqs) (hmono : Mono T₀ reqs)
+    (hmono : Mono T₀ reqs)
     (hnc : NoBucketCollision rs p reqs) (hni : NoInitialKey rs p reqs) :
     runAll rs (Rrl.new p T₀) reqs = .ok (expectedFrom (keyDecision rs p) p [] reqs) :=
-  runAll_refines hv reqs hwf hnc reqs [] (Rrl.new p T₀) T₀ rfl (inv_new rs p reqs T₀ hni) hmono
+  runAll_refines hv reqs hnc reqs [] (Rrl.new p T₀) T₀ rfl (inv_new rs p reqs T₀ hni) hmono
 
-/-- `process_response` never panics, whatever the table holds, for any instant and any context
-    (a NOERROR response subject to limiting must have a question: the documented `unwrap`). -/
+/-- `process_response` never panics: whatever the table holds, for any instant and **any**
+    context — in particular a NOERROR response without a question (QDCOUNT = 0 request whose TSIG
+    response does not fit; defect D17, repaired by commit 2232f31: the `unwrap` of the question is
+    gone, such responses are classified under the root name). -/
 theorem C26_never_panics (rs : RandomState) (R : Rrl) (hv : R.params.Valid) (now : Nat) (rnd : Bool)
-    (c : Context) (hwf : subjectToRrl c = true → c.WF) : processResponse rs R now rnd c ≠ .panic :=
-  processResponse_no_panic rs R hv now rnd c hwf
+    (c : Context) : processResponse rs R now rnd c ≠ .panic :=
+  processResponse_no_panic rs R hv now rnd c
 
 /-! ### what happens to a limited response -/
 
@@ -206,6 +208,17 @@ example :
   simp [processBucket, rateAndLimitForCategory, u32Mul, refillOf, satMulU64, U32_MAX, U64_MAX,
     NANOS_PER_SEC, bind, Out.bind]
 
+/-- regression witness for D17 on the model of the current code: a NOERROR response with neither
+    question nor source of synthesis gets the key of the root name (no panic) -/
+example (rs : RandomState) :
+    keyOf rs exParams { send_response := true, transport := .Udp, opcode := 0, source := .v4 0xC0000201,
+                        extended_rcode := 0, question := none, source_of_synthesis := none,
+                        response := { tc := true, ancount := 0, nscount := 0, arcount := 0, edns := false, tsig := false },
+                        rrl_action := none } =
+      .ok { dest := ipToDestU64 exParams (.v4 0xC0000201), ipv6 := false,
+            qname_hash := rs.hashName [0], category := .NoError } := by
+  rw [keyOf_ok]; rfl
+
 /-! #### a concrete history satisfying every hypothesis of `C26_history` -/
 
 /-- a `RandomState` for the example: a hash that separates the two names used below -/
@@ -241,10 +254,9 @@ theorem exKeys : ∀ q ∈ exReqs,
 theorem exMasks : MasksOf exP1 24 56 := ⟨by decide, by decide, rfl, rfl⟩
 
 theorem exHyps :
-    AllWF exReqs ∧ Mono 0 exReqs ∧ SourcesCanonical exReqs ∧ NoBucketCollision exRs exP1 exReqs ∧
+    Mono 0 exReqs ∧ SourcesCanonical exReqs ∧ NoBucketCollision exRs exP1 exReqs ∧
     NoInitialKey exRs exP1 exReqs ∧ HashInjectiveOn exRs exReqs := by
-  refine ⟨?_, ?_, ?_, ?_, ?_, ?_⟩
-  · unfold AllWF Context.WF; decide
+  refine ⟨?_, ?_, ?_, ?_, ?_⟩
   · simp [Mono, exReqs]
   · unfold SourcesCanonical; decide
   · intro q hq q' hq' k k' hk hk' hidx
@@ -261,7 +273,7 @@ example :
     (runAll exRs (Rrl.new exP1 0) exReqs).toOption.map (·.map (·.rrl_action)) =
       some [some .Send, some .Send, some .Send, some .Slip] := by
   rw [C26_history exP1_valid exMasks 0 exReqs exHyps.1 exHyps.2.1 exHyps.2.2.1 exHyps.2.2.2.1
-    exHyps.2.2.2.2.1 exHyps.2.2.2.2.2]
+    exHyps.2.2.2.2]
   decide
 
 end QV.C26
